@@ -14,7 +14,7 @@ def enc(v):
 
 class C02(Prop):
     id = "C02"
-    theorems = ["searchLeft_partition'", "searchRight_partition'", "slicePositions_nat",
+    theorems = ["searchLeft_partition", "searchRight_partition", "slicePositions_nat",
                 "locateSlice_increasing_spec", "locateSlice_decreasing_spec", "locateSlice_strict_spec",
                 "locateSlice_strict_absent", "slice_never_wraps"]
     rule = ("exhaustive grid (also in the quick tier): monotonic int/float axes of length 0-5, both directions, bounds "
